@@ -11,8 +11,6 @@ through a generated chunk schedule, optionally truncated or replaced by undecoda
 Set-up (b), real engine: generated call sequences against vlib.harness.Server; the client's
 return value / exception is compared with the response captured on the wire and decoded with
 ttlvref."""
-import os
-
 from hypothesis import strategies as st
 
 from vlib import core
@@ -94,12 +92,15 @@ _FAULTS = {
     "cut": st.fixed_dictionaries({"kind": st.just("truncate"), "at": st.integers(0, 10 ** 6)}),
     "cut-head": st.fixed_dictionaries({"kind": st.just("truncate"), "at": st.integers(0, 24)}),
     "cut-tail": st.fixed_dictionaries({"kind": st.just("truncate"), "at": st.integers(-24, -1)}),
+    "cut-item": st.fixed_dictionaries({"kind": st.just("cut-item"),
+                                       "level": st.sampled_from(["leaf", "child"])}),
     "tag": st.fixed_dictionaries({"kind": st.just("garbage-tag")}),
     "body": st.fixed_dictionaries({"kind": st.just("garbage-body"),
                                    "data": st.binary(min_size=8, max_size=48).map(lambda b: b.hex())}),
 }
 # roughly three quarters of the cases are delivered intact
-fault_s = st.sampled_from(["none"] * 15 + ["cut", "cut-head", "cut-tail", "tag", "body"]).flatmap(
+fault_s = st.sampled_from(["none"] * 18 + ["cut", "cut-head", "cut-tail", "cut-item", "cut-item",
+                            "tag", "body"]).flatmap(
     lambda k: _FAULTS[k])
 # ConfigHelper reads the literal string 'None' as "not set": not a credential value
 _cred_text = st.text(alphabet=ASCII, min_size=1, max_size=12).filter(lambda s: s != "None")
@@ -190,6 +191,32 @@ def known_paths():
     return P
 
 
+def get_grid():
+    """Every managed-object class / format / type value of the pie object model once per api and
+    KMIP version, as a successful Get (a finite sub-space enumerated completely)."""
+    v16 = "000102030405060708090a0b0c0d0e0f"
+    wrap = {"method": 1, "eki": {"uid": "7", "cp": {"block_cipher_mode": 13}}, "enc": 1}
+    objs = [{"kind": "SymmetricKey", "alg": 3, "len": 128, "fmt": 1, "value": v16},
+            {"kind": "SymmetricKey", "alg": 3, "len": 128, "fmt": 1, "value": v16 + "aabbccddeeff0011",
+             "wrap": wrap}]
+    objs += [{"kind": "PublicKey", "alg": 4, "len": 1024, "fmt": f, "value": v16} for f in (1, 3, 5)]
+    objs += [{"kind": "PrivateKey", "alg": 4, "len": 1024, "fmt": f, "value": v16} for f in (1, 3, 4)]
+    objs += [{"kind": "SecretData", "dtype": d, "fmt": 2, "value": v16} for d in (1, 2)]
+    objs += [{"kind": "Certificate", "ctype": 1, "value": v16},
+             {"kind": "OpaqueObject", "otype": 0x80000000, "value": v16}]
+    objs += [dict({"kind": "SplitKey", "alg": 3, "len": 128, "fmt": 1, "value": v16, "parts": 4,
+                   "part_id": 2, "threshold": 3, "method": m}, **({"prime": 104729} if m == 3 else {}))
+             for m in (1, 2, 3, 4)]
+    out = []
+    for api in ("pie", "proxy"):
+        for v in W.VERSIONS:
+            for i, o in enumerate(objs):
+                out.append(_sc(api, "get", v, {"uid": "1", "kws": None},
+                               {"kind": "success", "payload": {"uid": str(100 + i), "obj": o}},
+                               chunks=[7] if i % 2 else []))
+    return out
+
+
 # ----------------------------------------------------------------------------- running
 def execute(spec):
     if spec.get("mode") == "engine":
@@ -234,6 +261,12 @@ def worker(seed, shard, nshards, n_per_target, n_engine):
         _record(col, spec, execute(spec))
     if n_engine:
         core.draw_examples(EN.engine_case_s(), n_engine, core.derive_seed(seed, "e", shard), fe)
+    if shard == 1 % nshards:
+        for spec in get_grid():
+            res = execute(spec)
+            res["classes"] = res["classes"] + ["get-grid"]
+            _record(col, spec, res)
+        col.bump("get_grid_cases", len(get_grid()))
     if shard == 0:
         for spec in known_paths():
             res = execute(spec)
@@ -244,8 +277,8 @@ def worker(seed, shard, nshards, n_per_target, n_engine):
 
 def run(ctx):
     nshards = core.NCPU
-    n_per_target = ctx.n(130, 2600)
-    n_engine = ctx.n(10, 150)
+    n_per_target = ctx.n(130, 6000)
+    n_engine = ctx.n(10, 300)
     args = [(ctx.seed, i, nshards, n_per_target, n_engine) for i in range(nshards)]
     col = core.merged(PID, core.run_sharded("vlib.props.c19", "worker", args))
     per_op = {}
